@@ -297,6 +297,14 @@ var c15SiblingTree = mk("d5", "k.txt", "v/", "v/keep", "v/x.txt", "v/sub/", "v/s
 
 var c15SiblingAlphabet = []string{"v", "v-c", "!v-c/keep", "!v/keep", "!**/*.txt", "*", "**/keep", "!v-c", "v*", "!*/x.txt"}
 
+// c15SyntaxTree / c15SyntaxAlphabet: the syntactic variants of one negated and
+// one plain pattern that Docker's .dockerignore line preprocessing (trim,
+// clean, strip the leading slash, keep the '!' in front) makes equivalent,
+// on a tree where the re-included path x/y has content.
+var c15SyntaxTree = mk("d6", "w", "x/", "x/y/", "x/y/f", "x/y/l->f", "x/y/s/", "x/y/s/g", "x/z", "x/q/", "x/q/y")
+
+var c15SyntaxAlphabet = []string{"!x/y", "!/x/y", "! x/y", "! /x/y/", "!x/y/", "x", "/x", "x/", " x ", "*"}
+
 var c15Trees = []*tree{
 	mk("d1", "a/", "a/a/", "a/b/", "a/b/a", "a/b/c", "a/c", "b", "c/", "c/a->../b"),
 	mk("d2", "a", "b/", "b/a", "b/b/", "b/b/c", "b/c/", "b/c/c/", "b/c/c/a", "c/"),
@@ -550,7 +558,7 @@ func TestC15(t *testing.T) {
 	defer r.Finish()
 
 	workers := vr.Workers()
-	fixtures := append(append([]*tree{}, c15Trees...), c15SiblingTree)
+	fixtures := append(append([]*tree{}, c15Trees...), c15SiblingTree, c15SyntaxTree)
 	sls := newSlots(t, fixtures, workers)
 	treeByName := map[string]*tree{}
 	fullByName := map[string]*core.Entry{}
@@ -637,12 +645,12 @@ func TestC15(t *testing.T) {
 			}
 		}
 	}
-	r.Rule(fmt.Sprintf("every list of <= %d patterns over a %d-pattern Docker alphabet (thorough: plus every list of 4 over the 10-pattern core; %d lists in all) x %d fixed on-disk trees, plus every list of <= 3 (thorough: 4) patterns over the 10-pattern sibling-prefix alphabet on tree d5 (directories v and v-c), each through the real docker.NewIgnorer + core.Scan, then x ancestor {nil, everything synchronized before, previous result} x beta {identical, empty} through the real core.ReifyPhantomDirectories; "+
+	r.Rule(fmt.Sprintf("every list of <= %d patterns over a %d-pattern Docker alphabet (thorough: plus every list of 4 over the 10-pattern core; %d lists in all) x %d fixed on-disk trees, plus every list of <= 3 (thorough: 4) patterns over the 10-pattern sibling-prefix alphabet on tree d5 (directories v and v-c) and over the 10-pattern syntax-variant alphabet on tree d6, each through the real docker.NewIgnorer + core.Scan, then x ancestor {nil, everything synchronized before, previous result} x beta {identical, empty} through the real core.ReifyPhantomDirectories; "+
 		"compared with the reference walk (frozen moby matcher MatchesUsingParentResults + moby's prefix rule for descending into excluded directories). "+
 		"non-trivial = the reference excludes at least one entry of the tree; distinct by (list, tree, ancestor, beta)",
 		maxLen, len(alphabet), len(all), len(c15Trees)))
 	r.Assume(
-		"pattern alphabet: "+strings.Join(alphabet, " ")+"; core sub-alphabet: "+strings.Join(c15Core, " ")+"; sibling-prefix alphabet (tree d5 only): "+strings.Join(c15SiblingAlphabet, " "),
+		"pattern alphabet: "+strings.Join(alphabet, " ")+"; core sub-alphabet: "+strings.Join(c15Core, " ")+"; sibling-prefix alphabet (tree d5 only): "+strings.Join(c15SiblingAlphabet, " ")+"; syntax-variant alphabet (tree d6 only): "+strings.Join(c15SyntaxAlphabet, "|"),
 		"trusted base: the frozen copy of the vendored moby pattern matcher (upstream functions only) decides what 'Docker would include'; Docker's walk is moby pkg/archive TarWithOptions (descend into an excluded directory only if the text of some '!' pattern has it as a path prefix), not buildkit/fsutil's variant for wildcard exceptions",
 		"the .dockerignore preprocessing (trim, clean, strip leading slash) is re-implemented in the check",
 		"'synchronized' = present in ReifyPhantomDirectories(ancestor, scan, beta) and reachable from the root through tracked directories; both endpoints hold the same tree or beta is empty (content present only on the other endpoint is not enumerated)",
@@ -669,6 +677,12 @@ func TestC15(t *testing.T) {
 	siblingLists := lists(len(c15SiblingAlphabet), siblingLen)
 	for _, li := range siblingLists {
 		jobs = append(jobs, job{pick(c15SiblingAlphabet, li), c15SiblingTree})
+	}
+	// Syntax family: every list of <= 3 (thorough: <= 4) patterns over
+	// c15SyntaxAlphabet on c15SyntaxTree.
+	syntaxLists := lists(len(c15SyntaxAlphabet), siblingLen)
+	for _, li := range syntaxLists {
+		jobs = append(jobs, job{pick(c15SyntaxAlphabet, li), c15SyntaxTree})
 	}
 	failing := map[string]*c15Failure{}
 	var failMu sync.Mutex
@@ -816,6 +830,7 @@ func TestC15(t *testing.T) {
 	r.Set("trusted_base", []string{"verif/refs/patternmatcher (frozen copy of the vendored moby pattern matcher; upstream functions New, MatchesUsingParentResults, Exclusions, Patterns only)"})
 	r.Set("pattern_lists", len(all))
 	r.Set("sibling_prefix_lists", len(siblingLists))
+	r.Set("syntax_variant_lists", len(syntaxLists))
 	r.Set("scans", len(jobs))
 	for _, c := range []c15Case{
 		{Patterns: []string{"a", "!a/b/c"}, Tree: "d1", Ancestor: "nil", Beta: "same"},
